@@ -40,6 +40,21 @@ func genC18(r *Rand, sc *Scenario, tier string) {
 			sc.Docs = append(sc.Docs, docOf(genContainerDoc(r, r.Chance(1, 2), memberCount(r), 500), "container"))
 		}
 	}
+	if r.Chance(1, 12) {
+		// every task recurses deep through the public traversal functions at the same time
+		sc.Docs = nil
+		ntasks = r.Range(4, 6)
+		for t := 0; t < ntasks; t++ {
+			sc.Docs = append(sc.Docs, deepDoc(r.Intn(3), []int{2600, 3000, 3400}[r.Intn(3)], "1"))
+			sc.Tasks = append(sc.Tasks, []Op{{Kind: "NestedDescent", Doc: t}})
+		}
+		n := r.Range(100, 400)
+		for i := 0; i < n; i++ {
+			sc.Sched = append(sc.Sched, 1+(r.Intn(64)<<8|r.Range(20, 255)))
+		}
+		sc.Cfg["deep-recursion-in-every-task"] = 1
+		return
+	}
 	same := ""
 	if r.Chance(1, 2) {
 		same = c18Ops[r.Intn(len(c18Ops))]
